@@ -1,3 +1,208 @@
-/- C19 — property theorems (stub: the property is not claimed yet). -/
+/-
+  C19 — typed DOM properties are total functions of the stored attribute text.
+
+  Model: AHP/Model/Conv.lean (conversions.py, the special-value rules, the get/set dispatch of Tags.py, the attribute
+  store), tables AHP/Gen/Tables.lean (regenerated from the source on every run), documented rules AHP/Model/ConvSpec.lean.
+  `parseInt` (Python's `int()` on text) is a parameter: the theorems hold for every `parseInt` that fails with
+  `ValueError` only.
+
+    C19a  totality                 reading any name of any element never raises, whatever the attributes hold
+    C19b  meaning                  reading a linked property gives what its documented rule gives, for every text;
+                                   the clamping / default boundaries are symbolic (∀ n, n < lo → …)
+    C19c  table obligations        the tables regenerated from the source give, for every (element type, dot name)
+                                   pair, the dispatch the documented rule demands; the name tables are the documented ones
+    C19d  assignment               the attribute is stored under its HTML name so that reading back follows the same
+                                   rule; the only raising assignment is an out-of-range maxLength
+-/
+import AHP.Lemmas.Conv
+import AHP.Props.C19T0
+import AHP.Props.C19T1
+import AHP.Props.C19T2
+import AHP.Props.C19T3
+import AHP.Props.C19T4
+import AHP.Props.C19T5
+import AHP.Props.C19T6
+import AHP.Props.C19T7
 namespace AHP.C19
+open AHP AHP.Gen AHP.Conv AHP.Conv.Spec
+set_option maxRecDepth 100000
+
+/-- (element type, dot name) is a pair of the documented table: a common name on any element type, or a per-type name. -/
+def InTable (tag prop : String) : Prop :=
+  prop ∈ Spec.commonProps ∨ ∃ ps, (tag, ps) ∈ Spec.tagProps ∧ prop ∈ ps
+
+/-! ## C19c — table obligations -/
+
+/-- The per-type name table regenerated from the source is the documented one. -/
+theorem C19c_tagProps : Gen.tagProps = Spec.tagProps := by decide +kernel
+
+/-- The common names regenerated from the source are the documented ones. -/
+theorem C19c_commonProps : Gen.propLinks = Spec.commonProps := by decide +kernel
+
+/-- Every per-type pair: dispatch computed from the generated tables = the documented rule's (all eight parts). -/
+theorem C19c_cells : (Spec.tagProps.all fun p => p.2.all (cellOK genTables p.1)) = true := by
+  simp only [Spec.tagProps, List.all_append, C19c_cells_part0, C19c_cells_part1, C19c_cells_part2, C19c_cells_part3,
+    C19c_cells_part4, C19c_cells_part5, C19c_cells_part6, C19c_cells_part7, Bool.and_self]
+
+/-- Every common name, checked once for all element types (`commonOK`: the name is linked for every type and nothing
+in its rule depends on the element type). -/
+theorem C19c_common : Spec.commonProps.all (commonOK genTables) = true := by decide +kernel
+
+/-- No special-value rule of the generated table can raise when read. -/
+theorem C19c_rulesTotal : genTables.specials.all (fun p => ruleTotal genTables p.2) = true := by decide +kernel
+
+/-- The table obligation, for every pair of the documented table and every element type. -/
+theorem C19c_table (tag prop : String) (h : InTable tag prop) : cellOK genTables tag prop = true := by
+  rcases h with h | ⟨ps, hm, hp⟩
+  · exact cellOK_common genTables prop (List.all_eq_true.mp C19c_common prop h) tag
+  · have := List.all_eq_true.mp C19c_cells (tag, ps) hm
+    exact List.all_eq_true.mp this prop hp
+
+/-- In particular the HTML name under which the code stores a property is the documented one
+(className → class, colSpan → colspan, httpEquiv → http-equiv, …), up to the store's lower-casing. -/
+theorem C19c_htmlName (tag prop : String) (h : InTable tag prop) :
+    ∃ d, dispatch genTables tag prop = some d ∧ normSet d.set = (Spec.disp (htmlName prop) (srule tag prop)).set := by
+  obtain ⟨d, f⟩ := cellOK_facts (C19c_table tag prop h)
+  exact ⟨d, f.disp, by have := congrArg Disp.set f.norm; simpa only [Spec.norm] using this⟩
+
+/-! ## C19a — totality -/
+
+/-- Reading any name of any element never raises: every element type, every dot name (linked or not), every attribute
+state (absent, value-less, any text), any other attributes, for every `parseInt` that fails with `ValueError` only. -/
+theorem C19a_total (parseInt : Str → Except PyErr Int) (hpi : ValueErrorOnly parseInt) (e : Elem) (prop : String) :
+    ∃ v, getProp genTables parseInt e prop = .ok v :=
+  getProp_total genTables C19c_rulesTotal parseInt hpi e prop
+
+/-- The same for any tables all of whose special-value rules are total (`ruleTotal` is decidable). -/
+theorem C19a_total_tables (T : Tables) (hT : T.specials.all (fun p => ruleTotal T p.2) = true)
+    (parseInt : Str → Except PyErr Int) (hpi : ValueErrorOnly parseInt) (e : Elem) (prop : String) :
+    ∃ v, getProp T parseInt e prop = .ok v :=
+  getProp_total T hT parseInt hpi e prop
+
+/-- The executable `int()` the driver runs fails with `ValueError` only (the hypothesis is satisfiable). -/
+theorem C19a_pyIntOfStr_valueErrorOnly : ValueErrorOnly pyIntOfStr := by
+  intro s err h
+  unfold pyIntOfStr at h
+  simp only at h
+  split at h
+  · cases h; rfl
+  · split at h
+    · cases h
+    · cases h; rfl
+
+/-! ## C19b — meaning -/
+
+/-- Reading a linked property gives what the documented rule gives: for every pair of the documented table, every
+element of that type (any other attributes, any ancestors), the attribute absent or holding any text. -/
+theorem C19b_meaning (parseInt : Str → Except PyErr Int) (hpi : ValueErrorOnly parseInt) (e : Elem) (prop : String)
+    (h : InTable e.tag prop) (hpy : e.pyattrs.lookup prop = none)
+    (hst : srule e.tag prop = .className ∨ e.entry (htmlName prop) ≠ some none) :
+    getProp genTables parseInt e prop
+      = .ok (expected parseInt (srule e.tag prop) (stOf (e.entry (htmlName prop))) e.ancestors e.classNames) :=
+  getProp_of_cellOK genTables parseInt hpi e prop (C19c_table e.tag prop h) hpy hst
+
+/-- "Set via HTML": for the element the parser builds for `<tag attr="text">` (attr the documented HTML name), reading
+the property gives the documented rule on that text.  (className and spellcheck store a converted form of the text;
+for them the stream compares the constructed element.) -/
+theorem C19b_constructed (parseInt : Str → Except PyErr Int) (hpi : ValueErrorOnly parseInt) (tag prop : String)
+    (h : InTable tag prop) (anc : List String) (s : Str)
+    (h1 : srule tag prop ≠ .className) (h2 : srule tag prop ≠ .boolString) :
+    getProp genTables parseInt (constructed genTables tag (htmlName prop) anc s) prop
+      = .ok (expected parseInt (srule tag prop) (.text s) anc []) :=
+  getProp_constructed genTables parseInt hpi tag prop (C19c_table tag prop h) anc s h1 h2
+
+/-- Boundaries of a clamped property (span, colSpan 1..1000; rowSpan 0..65534), symbolically. -/
+theorem C19b_clamp_below (lo hi n : Int) (h : lo ≤ hi) (hn : n < lo) : Spec.clamp lo hi n = lo := by
+  unfold Spec.clamp; omega
+theorem C19b_clamp_within (lo hi n : Int) (h1 : lo ≤ n) (h2 : n ≤ hi) : Spec.clamp lo hi n = n := by
+  unfold Spec.clamp; omega
+theorem C19b_clamp_above (lo hi n : Int) (h : lo ≤ hi) (hn : hi < n) : Spec.clamp lo hi n = hi := by
+  unfold Spec.clamp; omega
+
+/-- convertToIntRangeCapped on a non-empty text, for all bounds. -/
+theorem C19b_intCapped (parseInt : Str → Except PyErr Int) (hpi : ValueErrorOnly parseInt) (s : Str) (h : s ≠ [])
+    (lo hi : Int) (hlh : lo ≤ hi) (inv : Inv) (emp : Emp) :
+    convertToIntRangeCapped parseInt (.str s) (some lo) (some hi) inv emp
+      = (match parseInt s with | .ok n => .ok (.int (Spec.clamp lo hi n)) | .error _ => handleInvalid inv) :=
+  intCapped_text parseInt hpi s h lo hi hlh inv emp
+
+/-- convertToIntRange with a lower bound on a non-empty text: `n < lo` is invalid, `n ≥ lo` is returned. -/
+theorem C19b_intRange (parseInt : Str → Except PyErr Int) (hpi : ValueErrorOnly parseInt) (s : Str) (h : s ≠ [])
+    (lo : Int) (inv : Inv) (emp : Emp) :
+    convertToIntRange parseInt (.str s) (some lo) none inv emp
+      = (match parseInt s with | .ok n => if n < lo then handleInvalid inv else .ok (.int n) | .error _ => handleInvalid inv) :=
+  intRange_text parseInt hpi s h lo inv emp
+
+/-- convertToPositiveInt: negatives and unparsable text give the default, `n ≥ 0` is returned. -/
+theorem C19b_positiveInt (parseInt : Str → Except PyErr Int) (s : Str) (d : Lit) :
+    convertToPositiveInt parseInt (.str s) d
+      = (match parseInt s with | .ok n => if n < 0 then d.toPy else .int n | .error _ => d.toPy) :=
+  positiveInt_text parseInt s d
+
+/-- convertToIntOrNegativeOneIfUnset: unset/empty −1, a number itself, anything else 0. -/
+theorem C19b_intOrMinusOne (parseInt : Str → Except PyErr Int) (s : Str) (h : s ≠ []) :
+    convertToIntOrNegativeOneIfUnset parseInt (.str s) = (match parseInt s with | .ok n => .int n | .error _ => .int 0) :=
+  intOrMinusOne_text parseInt s h
+
+/-- convertPossibleValues: the lower-cased member, the invalid default for a non-member, the empty default for ''. -/
+theorem C19b_possible (s : Str) (ms : List String) (inv : Inv) (emp : Emp) :
+    convertPossibleValues (.str s) ms inv emp
+      = if s = [] then handleEmpty inv emp
+        else if ms.contains (String.ofList (lower s)) then .ok (.str (lower s)) else handleInvalid inv :=
+  possible_text s ms inv emp
+
+/-- spellcheck: whatever is stored reads back as a boolean through its true/false string. -/
+theorem C19b_boolString (v : Str) :
+    convertBooleanStringToBoolean (.str (convertToBooleanString (.str v))) = !(lower v = str "false" || lower v = str "0") :=
+  boolStr_roundtrip v
+
+/-! ## C19d — assignment -/
+
+/-- Assigning a linked property (text, number, boolean or None): the only raising assignment is an out-of-range
+maxLength (`IndexSizeError`); every other assignment stores / removes the attribute under the HTML name. -/
+theorem C19d_assign (parseInt : Str → Except PyErr Int) (hpi : ValueErrorOnly parseInt) (e : Elem) (prop : String) (v : PyV)
+    (h : InTable e.tag prop) (hv : plain v = true) :
+    setProp genTables parseInt e prop v
+      = if srule e.tag prop = .maxLength ∧ outOfRange parseInt v = true then .error .indexSizeError
+        else .ok (setResult e v (Spec.disp (htmlName prop) (srule e.tag prop)).set) :=
+  setProp_of_cellOK genTables parseInt hpi e prop v (C19c_table e.tag prop h) hv
+
+/-- An assignment raises if and only if it is an out-of-range maxLength. -/
+theorem C19d_only_raise (parseInt : Str → Except PyErr Int) (hpi : ValueErrorOnly parseInt) (e : Elem) (prop : String) (v : PyV)
+    (h : InTable e.tag prop) (hv : plain v = true) :
+    (∃ err, setProp genTables parseInt e prop v = .error err) ↔ (srule e.tag prop = .maxLength ∧ outOfRange parseInt v = true) := by
+  rw [C19d_assign parseInt hpi e prop v h hv]
+  constructor
+  · rintro ⟨err, he⟩
+    split at he
+    · assumption
+    · cases he
+  · intro hc
+    exact ⟨_, if_pos hc⟩
+
+/-- Reading back after an accepted assignment follows the same rule, applied to the stored text. -/
+theorem C19d_roundtrip (parseInt : Str → Except PyErr Int) (hpi : ValueErrorOnly parseInt) (e : Elem) (prop : String) (v : PyV)
+    (h : InTable e.tag prop) (hv : plain v = true) (hpy : e.pyattrs.lookup prop = none)
+    (hacc : ¬ (srule e.tag prop = .maxLength ∧ outOfRange parseInt v = true)) :
+    ∃ e', setProp genTables parseInt e prop v = .ok e' ∧ e'.tag = e.tag ∧ e'.ancestors = e.ancestors ∧
+      getProp genTables parseInt e' prop
+        = .ok (expected parseInt (srule e.tag prop) (stAfter parseInt (srule e.tag prop) v) e.ancestors e'.classNames) :=
+  roundtrip_of_cellOK genTables parseInt hpi e prop v (C19c_table e.tag prop h) hv hpy hacc
+
+/-! ## non-vacuity -/
+
+example : InTable "a" "href" := .inr ⟨["href", "target"], by decide, by decide⟩
+example : InTable "anything" "tabIndex" := .inl (by decide)
+
+/-- `<td colspan="1001">`.colSpan = 1000, `<td colspan="-3">`.colSpan = 1, with the executable `int()`. -/
+example : (getProp genTables pyIntOfStr (Elem.ofAttrList genTables "td" [] [("colspan", some (str "1001"))] (Elem.new "td")) "colSpan").toOption
+    = some (.int 1000) := by decide +kernel
+example : (getProp genTables pyIntOfStr (Elem.ofAttrList genTables "td" [] [("colspan", some (str "-3"))] (Elem.new "td")) "colSpan").toOption
+    = some (.int 1) := by decide +kernel
+/-- `input.maxLength = -4` raises, `input.maxLength = 5` stores maxlength="5". -/
+example : (match setProp genTables pyIntOfStr (Elem.new "input") "maxLength" (.int (-4)) with
+    | .error .indexSizeError => true | _ => false) = true := by decide +kernel
+example : (setProp genTables pyIntOfStr (Elem.new "input") "maxLength" (.int 5)).toOption.map (·.attrs)
+    = some [("maxlength", some (str "5"))] := by decide +kernel
+
 end AHP.C19
